@@ -1,7 +1,7 @@
 (* C15 — the VALUE a lookup returns: node identity is the repr, the value stored is the one handed to the
    latest add-type call of that repr ("last added value wins").  Round 4 (seeded C15-10). *)
 From Coq Require Import List ZArith Bool Lia.
-From GZ Require Import C15.Model C15.Check C15.Proofs C15.ProofsB C15.ProofsC C15.ProofsD.
+From GZ Require Import C15.Model C15.Cluster C15.Check C15.Proofs C15.ProofsB C15.ProofsC C15.ProofsD.
 From GZgen Require Import C15Consts.
 Import ListNotations.
 Open Scope Z_scope.
@@ -158,3 +158,34 @@ Proof.
     rewrite (proj2 (pval_agrees_ok a (Hidx a Ia) (H a Ia))), (proj2 (pval_agrees_ok b (Hidx b Ib) (H b Ib))).
     apply Bool.eqb_reflx.
 Qed.
+
+(* ======== the error path of the dispatch: no node <-> no member with a virtual node ================= *)
+Lemma amap_run_nodup : forall R ops, 0 <= R -> NoDup (map fst (amap_run R ops)).
+Proof.
+  intros R ops HR.
+  pose (t := map (fun o => (nrepr (op_node o), @nil Z)) ops).
+  assert (Hu : ops_in_U (fun n => In n (map fst t)) ops).
+  { unfold ops_in_U. apply Forall_forall. intros o Ho. unfold op_in_U, t. rewrite map_map. cbn [fst].
+    apply in_map_iff. exists o. split; [reflexivity | exact Ho]. }
+  exact (proj1 (amap_wf_run t R ops HR Hu)).
+Qed.
+
+Lemma no_node_iff_no_members_l : forall vh R ops hp ihp, 0 <= R ->
+  (get (run vh R ops) hp ihp = GNone <-> members (amap_run R ops) = []).
+Proof.
+  intros vh R ops hp ihp HR.
+  destruct (get_owner_any_hash_l vh R ops hp ihp) as (_ & Hn & _). rewrite Hn.
+  pose proof (amap_run_nodup R ops HR) as ND. set (m := amap_run R ops) in *.
+  split.
+  - intros Hno. destruct (members m) as [|[n [r v]] ms] eqn:E; [reflexivity|]. exfalso.
+    assert (Hin : In (n, (r, v)) (members m)) by (rewrite E; left; reflexivity).
+    unfold members in Hin. apply filter_In in Hin. destruct Hin as [Hin Hr]. cbn in Hr. apply Z.ltb_lt in Hr.
+    apply (Hno (vh n 0)). exists (mkNode n v). exists r, 0. cbn [nrepr nval].
+    split; [apply in_alookup; assumption|]. split; [lia | reflexivity].
+  - intros Hm h [x (r & i & Hl & Hi & _)].
+    apply in_alookup in Hl; [|exact ND].
+    assert (Hin : In (nrepr x, (r, nval x)) (members m)).
+    { unfold members. apply filter_In. split; [exact Hl|]. cbn. apply Z.ltb_lt. lia. }
+    rewrite Hm in Hin. exact Hin.
+Qed.
+
